@@ -65,6 +65,8 @@ func instancesFor(prop, tier string) []*Instance {
 		c14Instances(add, thorough)
 	case "C04":
 		c04Instances(add, thorough)
+	case "C05":
+		c05Instances(add, thorough)
 	case "C03":
 		c03Instances(add, thorough)
 	case "C15":
@@ -506,5 +508,45 @@ func c04Instances(add func(*Instance), thorough bool) {
 			}
 			add(&Instance{Func: "VerifC04Unset", Params: with(b.p, "u", u, "L", 2, "sb", b.sb, "sm", b.sm, "wd", wd)})
 		}
+	}
+}
+
+// bitmaps used by the serialization properties (eff=1: they satisfy the full invariant so that Validate can be asserted)
+func serialShapes(thorough bool) []bmShape {
+	out := []bmShape{
+		{"empty", P("ak", 0), 0, 0, 0},
+		{"A2", P("ak", 1, "akeys", 0, "ac0", 2), 0, 0, 0},
+		{"R1", P("ak", 1, "akeys", 0, "ac0", 201), 0, 0, 0},
+		{"A2,R1", P("ak", 2, "akeys", 0, "ac0", 2, "ac1", 201), 0, 0, 0},
+		{"A1,R1,A2 (3 with run: no offsets)", P("ak", 3, "akeys", 0, "ac0", 1, "ac1", 201, "ac2", 2), 0, 0, 0},
+		{"A1,A1,R1,A1 (4 with run: offsets)", P("ak", 4, "akeys", 0, "ac0", 1, "ac1", 1, "ac2", 201, "ac3", 1), 0, 0, 0},
+		{"R1,A1,A1,A1", P("ak", 4, "akeys", 0, "ac0", 201, "ac1", 1, "ac2", 1, "ac3", 1), 0, 0, 0},
+		{"A1 x4 (no run)", P("ak", 4, "akeys", 0, "ac0", 1, "ac1", 1, "ac2", 1, "ac3", 1), 0, 0, 0},
+		{"A1,R1,A1,R1,A1", P("ak", 5, "akeys", 0, "ac0", 1, "ac1", 201, "ac2", 1, "ac3", 201, "ac4", 1), 0, 0, 0},
+		{"B(lo),A1", P("ak", 2, "akeys", 4, "ac0", 100, "ac1", 1), 0, 0, 0},
+		{"Rfull,A1", P("ak", 2, "akeys", 3, "ac0", 220, "ac1", 1), 0, 0, 0},
+		{"R2", P("ak", 1, "akeys", 2, "ac0", 202), 0, 0, 1},
+		{"A3,B(lo),R1", P("ak", 3, "akeys", 4, "ac0", 3, "ac1", 100, "ac2", 201), 0, 0, 1},
+	}
+	return out
+}
+
+func c05Instances(add func(*Instance), thorough bool) {
+	for _, b := range serialShapes(thorough) {
+		base := with(b.p, "L", 7, "eff", 1, "acow", 0, "tail", 2, "chunk", 3, "xb", 0, "xm", 262143)
+		if b.p["ac0"] == 100 || b.p["ac1"] == 100 {
+			base = with(base, "xb", 4150, "xm", 15) // the follow-up Add goes into a bitmap chunk: windowed argument
+		}
+		for rd := 0; rd <= 4; rd++ {
+			add(&Instance{Func: "VerifC05RoundTrip", Tier: b.tier, Note: b.name, Params: with(base, "wr", 0, "rd", rd)})
+		}
+		add(&Instance{Func: "VerifC05RoundTrip", Tier: b.tier, Params: with(base, "wr", 1, "rd", 0)})
+		add(&Instance{Func: "VerifC05RoundTrip", Tier: b.tier, Params: with(base, "wr", 2, "rd", 2)})
+		for _, ch := range []int{1, 2, 7} {
+			add(&Instance{Func: "VerifC05RoundTrip", Tier: b.tier, Params: with(base, "wr", 0, "rd", 4, "chunk", ch)})
+		}
+		add(&Instance{Func: "VerifC05RoundTrip", Tier: b.tier, Params: with(base, "wr", 0, "rd", 0, "reuse", 1)})
+		add(&Instance{Func: "VerifC05RoundTrip", Tier: b.tier, Params: with(base, "wr", 0, "rd", 2, "reuse", 1, "tail", 0)})
+		add(&Instance{Func: "VerifC05WriterFault", Tier: b.tier, Params: base})
 	}
 }
